@@ -14,9 +14,12 @@ RUN=$(grep -o -E 'func (Test[A-Za-z0-9_]+)' $S/demo_test.go.txt | sed 's/func //
 TAGS=""
 head -12 $S/demo_test.go.txt | grep -q "test_db_sqlite" && TAGS="-tags test_db_sqlite"
 cp $S/demo_test.go.txt $W/$PKG/zz_seeded_demo_test.go
-r0=$(timeout 900 go test -vet=off -count=1 $TAGS -run "^($RUN)\$" $PKG 2>&1 | tail -1)
+RUNDIR=$W
+if [ "$PKG" = "./tlv/" ]; then RUNDIR=$W/tlv; PKG=./; fi
+head -12 $S/demo_test.go.txt | grep -q -- "-tags dev" && TAGS="$TAGS -tags dev"
+r0=$(cd $RUNDIR && timeout 900 go test -vet=off -count=1 $TAGS -run "^($RUN)\$" $PKG 2>&1 | tail -1)
 git apply $S/patch.diff || { echo "patch does not apply"; exit 2; }
-r1=$(timeout 900 go test -vet=off -count=1 $TAGS -run "^($RUN)\$" $PKG 2>&1 | grep -E "^(ok|FAIL|---)" | tr '\n' ' ')
+r1=$(cd $RUNDIR && timeout 900 go test -vet=off -count=1 $TAGS -run "^($RUN)\$" $PKG 2>&1 | grep -E "^(ok|FAIL|---)" | tr '\n' ' ')
 git checkout -q -- . ; git clean -fdq -e seeded
 echo "$ID clean: $r0 | patched: $r1"
 cp $S/patch.diff $S/demo_test.go.txt $S/meta.json $OUT/
